@@ -100,7 +100,7 @@ let snapshot id step (inp : input) (s : state) =
     List.iteri (fun i c ->
       Printf.printf "%s cell %d %d %d tr %s ct %s a %s s %s e %s L %s D %s W %s P %d\n" p vi i (n2i c.c_stop)
         (zs c.c_travel) (zs c.c_cumtravel) (zs c.c_arrival) (zs c.c_start) (zs c.c_end)
-        (String.concat "," (List.map (fun l -> if has_capacity inp then zs l else "0") c.c_levels)) (if has_distance_limit inp then zs c.c_cumdist else "0") (if has_max_wait_vehicle inp then zs c.c_wait_acc else "0") (n2i c.c_pos)) r)
+        (let l = String.concat "," (List.map (fun l -> if has_capacity inp then zs l else "0") c.c_levels) in if l = "" then "-" else l) (if has_distance_limit inp then zs c.c_cumdist else "0") (if has_max_wait_vehicle inp then zs c.c_wait_acc else "0") (n2i c.c_pos)) r)
     s.st_routes;
   Printf.printf "%s planned %s\n" p (keys inp s.st_planned);
   Printf.printf "%s unplanned %s\n" p (keys inp s.st_unplanned);
